@@ -8,7 +8,7 @@ RULE = ("cases = (number of fields 1..3, common length, selector / concatenation
         "oracle = the same selector applied to every field array separately; non-trivial = at least two fields and length >= 2")
 ASSUMPTIONS = ["oracle: numpy indexing / concatenation of each field array on its own", "field contents are distinct per field and row so a misaligned entry is visible"]
 REQUIRED_FEATURES = ["three_fields", "two_dim_field", "zero_length", "mask_selector", "list_with_repeats", "mismatch_refused", "varlen_widths_differ",
-                     "concat_triple", "single_entry", "astype_reordered_fields", "equality_other_field_shape"]
+                     "concat_triple", "single_entry", "astype_reordered_fields", "equality_other_field_shape", "inherited_class"]
 BOUNDS = {"quick": "1-3 fields (1-D int, 2-D int, 1-D float) x length 0..4 x {every int, 27 slices, lists of length<=2 incl. empty, every mask} + iteration, "
                    "concatenate pairs and triples with lengths 0..3, equality, astype to a narrower class, fields one entry longer/shorter; VarLenArray "
                    "concatenation widths 1..3 x lengths 0..2 (pairs) and triples",
@@ -43,7 +43,10 @@ def _classes():
         class Kca:          # a narrower class whose shared fields are declared in a different order
             c: np.ndarray
             a: np.ndarray
-        _CLS.update({1: K1, 2: K2, 3: K3, "b": Kb, "ca": Kca})
+        @npdataclass
+        class Kchild(K2):   # inherits a, b and adds c
+            c: np.ndarray
+        _CLS.update({1: K1, 2: K2, 3: K3, "b": Kb, "ca": Kca, "child": Kchild})
     return _CLS
 
 
@@ -85,6 +88,8 @@ def cases(shard, tier):
         yield ["cat", k, n, m]
         yield ["eq", k, n, m]
     yield ["eqself", k, n]
+    if k == 3:
+        yield ["inherit", k, n]
     if k >= 2:
         yield ["astype", k, n]
         for d in (1, -1):
@@ -168,6 +173,27 @@ def check(case, acc):
                 g1[1], g2[1] = col, np.repeat(col, 3, axis=1)
                 _cmp(acc, "equality-field-widths-differ", False, lambda: bool(K(*g1) == K(*g2)))
                 _cmp(acc, "equality-field-widths-differ(rev)", False, lambda: bool(K(*g2) == K(*g1)))
+    elif kind == "inherit":
+        # the base class is used first, then the subclass with one more field: all three columns must take part
+        acc.feature("inherited_class")
+        base = C[2](*[x.copy() for x in f[:2]])
+        Kc = C["child"]
+        _cmp(acc, "base-len", n, lambda: len(base))
+        mkc = lambda: Kc(*[x.copy() for x in f])
+        _cmp(acc, "child-fields", [x.tolist() for x in f], lambda: [np.asarray(getattr(mkc(), nm)).tolist() for nm in ("a", "b", "c")])
+        _cmp(acc, "child[::-1]", [x[::-1].tolist() for x in f], lambda: [np.asarray(getattr(mkc()[::-1], nm)).tolist() for nm in ("a", "b", "c")])
+        _cmp(acc, "child-concatenate", [np.concatenate([x, x]).tolist() for x in f],
+             lambda: [np.asarray(getattr(np.concatenate([mkc(), mkc()]), nm)).tolist() for nm in ("a", "b", "c")])
+        if n:
+            g = [x.copy() for x in f]
+            g[2] = g[2] + 1
+            _cmp(acc, "child-equality-extra-field-differs", False, lambda: bool(mkc() == Kc(*g)))
+            g2 = [x.copy() for x in f]
+            g2[2] = fields(3, n + 1)[2]
+            o = attempt(lambda: [np.asarray(v).tolist() for v in Kc(*g2).shallow_tuple()])
+            acc.trans()
+            if not is_refused(o):
+                acc.fail("fields-of-different-length-accepted", "refused", o)
     elif kind == "eqself":
         _cmp(acc, "equality-self", True, lambda: bool(mk() == mk()))
     elif kind == "astype":
